@@ -220,7 +220,7 @@ def replay(path):
     for kinds, name in ((('"k":"vec"', '"k":"aff"', '"k":"cplx"', '"k":"dyn"', '"q1":'), "c20_geom_replay"),
                         (('"k":"newton"', '"k":"secant"'), "c20_newton_replay"),
                         (('"k":"rigid"', '"k":"plane"', '"k":"slerp"'), "c20_rigid_replay")):
-        if any(k in head for k in kinds):
+        if any(k in head for k in kinds) and '"k":"rel"' not in head:   # ("rel" cases of LinAlgRot carry q1/q2 too)
             hname = name
     rep = vlib.build_harness(lib, hname, [hname + ".cpp"])
     r = subprocess.run([rep, "--single", path], env=vlib.run_env())
